@@ -669,7 +669,10 @@ def special_cases(env):
             # placed right AFTER one for which it can: nothing may carry over from the previous record
             ("nic2", 2, "10.9.0.2", "255.0.255.0", None, None),
             ("nic1", 2, "10.1.2.3", None, None, None),
-            ("nic2", int(ps._common.AF_INET6), "fe80::2", "ffff:ffff:ffff:ffff::", None, None)]
+            ("nic2", int(ps._common.AF_INET6), "fe80::2", "ffff:ffff:ffff:ffff::", None, None),
+            # physical addresses of one byte and of none (nothing in them shows which separator the platform uses)
+            ("nic3", -1 if fl == "windows" else link, "7F" if fl == "windows" else "7f", None, None, None),
+            ("nic4", -1 if fl == "windows" else link, "", None, None, None)]
     env.scenario(over={"net_if_addrs": rows})
     got = canon(ps.net_if_addrs())
     by = {(n, a["family"]): a for n, lst in got.items() for a in lst}
@@ -677,6 +680,12 @@ def special_cases(env):
     want_mac = "aa-bb-cc-00-00-00" if fl == "windows" else "aa:bb:cc:00:00:00"
     add("net_if_addrs:mac", mac != want_mac, "%s:net_if_addrs:mac-padding" % fl,
         "MAC %r, expected %r" % (mac, want_mac), got)
+    sep_ = "-" if fl == "windows" else ":"
+    for nic_, raw_ in (("nic3", "7F" if fl == "windows" else "7f"), ("nic4", "")):
+        mac_ = by.get((nic_, link), {}).get("address")
+        want_ = raw_ + (sep_ + "00") * 5
+        add("net_if_addrs:mac:%s" % nic_, mac_ != want_, "%s:net_if_addrs:mac-padding-short-address" % fl,
+            "physical address %r padded to %r, expected %r" % (raw_, mac_, want_), got)
     if fl == "windows":
         b4 = by.get(("nic0", 2), {}).get("broadcast")
         b6 = by.get(("nic0", int(ps._common.AF_INET6)), {}).get("broadcast")
